@@ -37,6 +37,9 @@ def stale_signature(before_spec, after_spec, op):
     if op["op"] == "setlink" and op.get("attr") == "usage_journey" and not history.journey_jobs(
             before_spec, before_spec["patterns"][op["name"]]["usage_journey"]):
         return "C01:stale-after-set:patterns.usage_journey:from-jobless-journey"
+    # D3, second facet: a journey without jobs gains its first jobs through an edit of its step list
+    if op["op"] in ("setlist", "listop") and op.get("attr") == "uj_steps" and not history.journey_jobs(before_spec, op["name"]):
+        return "C01:stale-after-edit:journeys.uj_steps:from-jobless-journey"
     return f"C01:stale-after-{lab}"
 
 
@@ -149,6 +152,8 @@ def gen_op_once(rng, spec, guarded, shared):
                 if op["op"] == "setlink" and op["attr"] == "usage_journey" and not history.journey_jobs(
                         spec, spec["patterns"][op["name"]]["usage_journey"]):
                     continue
+                if op.get("attr") == "uj_steps" and not history.journey_jobs(spec, op["name"]):
+                    continue      # D3, second facet: a jobless journey gains its first jobs
                 sp2 = copy.deepcopy(spec)
                 tmp = Live.__new__(Live)
                 tmp.spec = sp2
@@ -227,7 +232,8 @@ def edit_vs_rebuild_shard(args):
                     undo = dict(op, target=e[op["attr"]])
                 else:
                     undo = dict(op, items=e[op["attr"]])
-                if not guarded or not (op["op"] == "setlink" and op["attr"] == "usage_journey" and not history.journey_jobs(live.spec, live.spec["patterns"][op["name"]]["usage_journey"])):
+                if not guarded or not ((op["op"] == "setlink" and op["attr"] == "usage_journey" and not history.journey_jobs(live.spec, live.spec["patterns"][op["name"]]["usage_journey"]))
+                                       or (op.get("attr") == "uj_steps" and not history.journey_jobs(live.spec, op["name"]))):
                     st2, err2 = live.apply(undo)
                     hist_ops.append(undo)
                     out["undo_checks"] += 1
